@@ -55,7 +55,7 @@ func verifC19Run(base, target []byte, bs, limit int, wrap bool) {
 	}
 
 	// own reconstruction
-	vAssert(verifSame(verifReconstruct(base, bs, ops), target), "own application of the delta to the base yields the target")
+	vAssert(verifYields(base, bs, ops, target), "own application of the delta to the base yields the target")
 
 	// the real Patch
 	patched, perr := e.PatchBytes(base, sig, real)
@@ -112,7 +112,7 @@ func VerifC19Unchanged() {
 	vAssert(nData == 0, "unchanged target is sent without literal data")
 	if ok && nData == 0 {
 		vCover("unchanged")
-		vAssert(verifSame(verifReconstruct(base, bs, ops), target), "delta of an unchanged target reproduces it")
+		vAssert(verifYields(base, bs, ops, target), "delta of an unchanged target reproduces it")
 	}
 }
 
@@ -144,7 +144,7 @@ func VerifC19Defaults() {
 		return
 	}
 	vCover("defaults")
-	vAssert(verifSame(verifReconstruct(base, bs, ops), target), "own application of the delta to the base yields the target")
+	vAssert(verifYields(base, bs, ops, target), "own application of the delta to the base yields the target")
 	unchanged := len(base) == len(target) && bytes.Equal(base, target)
 	vAssert(vOr(!unchanged, nData == 0), "unchanged target is sent without literal data")
 }
